@@ -118,8 +118,9 @@ func C14types(p *load.Program, run *report.Run) {
 		run.OK("type-spelling-roundtrip", "types.Parse", "", "the parser uses no regular expressions: its accepted names are decided from its name table; size and array spellings are not decided here")
 		return
 	}
-	if reSized == nil || reArr == nil {
-		run.Undecided("type-spelling-roundtrip", "types.reSized/reArr", "", "parser regular expressions not found")
+	typeDimensionOrder(p, run, pkg)
+	if reSized == nil {
+		run.Undecided("type-spelling-roundtrip", "types.reSized", "", "the parser's regular expression for sized names was not found")
 		return
 	}
 	for _, tc := range []string{"TBool", "TInt", "TUint", "TString", "TStruct"} {
@@ -169,6 +170,12 @@ func C14types(p *load.Program, run *report.Run) {
 	for tc, wantSize := range map[string]string{"TArray": "3", "TSlice": ""} {
 		key := "types.Info.String/" + tc
 		run.Count("signature-types", 1)
+		if reArr == nil {
+			// the bracket prefixes are taken apart by hand: their spelling is not decided here (the order in which
+			// the dimensions are put back together is: array-dimensions-in-text-order)
+			run.OK("type-spelling-roundtrip", key, p.Rel(fs.Pos()), "bracket prefixes parsed without a regular expression: spelling not decided here")
+			continue
+		}
 		f, ok := formats[tc]
 		if !ok {
 			run.Undecided("type-spelling-roundtrip", key, p.Rel(fs.Pos()), "format not found")
@@ -191,6 +198,35 @@ func C14types(p *load.Program, run *report.Run) {
 // of the matched name in package-level map[string]Type literals (tried in source order, the first hit
 // wins), optionally filtered by a switch over the looked-up type whose accepting arms assign it.
 func readerNameTable(pkg *packages.Package, fd *ast.FuncDecl) map[string]string {
+	out := readerNameTable1(pkg, fd)
+	if len(out) > 0 {
+		return out
+	}
+	// the scalar names read in a helper of the package (parseBasic)
+	decls := map[string]*ast.FuncDecl{}
+	for _, f := range pkg.Syntax {
+		for _, d := range f.Decls {
+			if h, ok := d.(*ast.FuncDecl); ok && h.Recv == nil && h.Body != nil {
+				decls[h.Name.Name] = h
+			}
+		}
+	}
+	ast.Inspect(fd.Body, func(n ast.Node) bool {
+		if c, ok := n.(*ast.CallExpr); ok {
+			if id, ok := c.Fun.(*ast.Ident); ok && decls[id.Name] != nil && decls[id.Name] != fd {
+				for k, v := range readerNameTable1(pkg, decls[id.Name]) {
+					if _, dup := out[k]; !dup {
+						out[k] = v
+					}
+				}
+			}
+		}
+		return true
+	})
+	return out
+}
+
+func readerNameTable1(pkg *packages.Package, fd *ast.FuncDecl) map[string]string {
 	info := pkg.TypesInfo
 	out := map[string]string{}
 	// shape 1
@@ -318,4 +354,107 @@ func readerNameTable(pkg *packages.Package, fd *ast.FuncDecl) map[string]string 
 		}
 	}
 	return out
+}
+
+// typeDimensionOrder: `[2][3]uint4` is an array of two arrays of three.  A parser that descends recursively
+// (strip the first bracket, parse the rest, wrap) gets that by construction.  One that first collects the
+// dimensions in text order and then wraps the element type in a loop makes the dimension it wraps *last* the
+// outermost, so the wrapping loop has to run from the last collected dimension to the first.
+func typeDimensionOrder(p *load.Program, run *report.Run, pkg *packages.Package) {
+	const rule = "array-dimensions-in-text-order"
+	run.Rule(rule, "in package types, a function that appends array dimensions to a slice while it strips bracket prefixes and later wraps an element type (a composite literal with ElementType) in a loop over that slice runs that loop from the last dimension to the first; a recursive-descent parser has nothing to check")
+	n := 0
+	for _, f := range pkg.Syntax {
+		if strings.HasSuffix(p.Fset.Position(f.Pos()).Filename, "_test.go") {
+			continue
+		}
+		for _, d := range f.Decls {
+			fd, ok := d.(*ast.FuncDecl)
+			if !ok || fd.Body == nil {
+				continue
+			}
+			// slices appended to inside a loop
+			collected := map[string]bool{}
+			ast.Inspect(fd.Body, func(x ast.Node) bool {
+				loop, ok := x.(*ast.ForStmt)
+				if !ok {
+					return true
+				}
+				ast.Inspect(loop.Body, func(y ast.Node) bool {
+					as, ok := y.(*ast.AssignStmt)
+					if !ok || len(as.Lhs) != 1 || len(as.Rhs) != 1 {
+						return true
+					}
+					if c, ok := as.Rhs[0].(*ast.CallExpr); ok && types.ExprString(c.Fun) == "append" && len(c.Args) == 2 && types.ExprString(c.Args[0]) == types.ExprString(as.Lhs[0]) {
+						collected[types.ExprString(as.Lhs[0])] = true
+					}
+					return true
+				})
+				return true
+			})
+			if len(collected) == 0 {
+				continue
+			}
+			wraps := func(body *ast.BlockStmt) bool {
+				found := false
+				ast.Inspect(body, func(y ast.Node) bool {
+					if cl, ok := y.(*ast.CompositeLit); ok {
+						for _, el := range cl.Elts {
+							if kv, ok := el.(*ast.KeyValueExpr); ok && types.ExprString(kv.Key) == "ElementType" {
+								found = true
+							}
+						}
+					}
+					return !found
+				})
+				return found
+			}
+			ast.Inspect(fd.Body, func(x ast.Node) bool {
+				switch t := x.(type) {
+				case *ast.RangeStmt:
+					if collected[types.ExprString(t.X)] && wraps(t.Body) {
+						n++
+						run.Violate(rule, "types."+fd.Name.Name+"/"+types.ExprString(t.X), p.Rel(t.Pos()), "the dimensions collected in text order are wrapped around the element type from the first to the last: the first dimension of the text becomes the innermost, `[2][3]T` is read as `[3][2]T`", nil)
+					}
+				case *ast.ForStmt:
+					if !wraps(t.Body) {
+						return true
+					}
+					idx := ""
+					for name := range collected {
+						used := false
+						ast.Inspect(t.Body, func(y ast.Node) bool {
+							if ix, ok := y.(*ast.IndexExpr); ok && types.ExprString(ix.X) == name {
+								used = true
+							}
+							return !used
+						})
+						if used {
+							idx = name
+						}
+					}
+					if idx == "" {
+						return true
+					}
+					n++
+					down := false
+					if inc, ok := t.Post.(*ast.IncDecStmt); ok && inc.Tok == token.DEC {
+						if as, ok := t.Init.(*ast.AssignStmt); ok && len(as.Rhs) == 1 && strings.Contains(types.ExprString(as.Rhs[0]), "len("+idx+")") {
+							down = true
+						}
+					}
+					key := "types." + fd.Name.Name + "/" + idx
+					if down {
+						run.OK(rule, key, p.Rel(t.Pos()), "wrapped from the last collected dimension to the first")
+					} else {
+						run.Violate(rule, key, p.Rel(t.Pos()), "the dimensions collected in text order are not wrapped from the last to the first: the first dimension of the text does not become the outermost", nil)
+					}
+				}
+				return true
+			})
+		}
+	}
+	if n == 0 {
+		run.OK(rule, "types", "", "no parser collects dimensions before wrapping them (recursive descent)")
+	}
 }
